@@ -1,5 +1,6 @@
 # -*- coding: utf-8 -*-
 import ast
+import copy
 import inspect
 import io
 import keyword
@@ -357,14 +358,33 @@ class ExceptionTrace(object):
 
             self._render_line(
                 io,
-                "<fg=blue;options=bold>{} </><fg=default;options=bold>{}</>: {}{}".format(
+                "<fg=blue;options=bold>{} </>{}: {}{}".format(
                     symbol,
-                    title.rstrip("."),
-                    description,
-                    ",".join("\n  <fg=blue>{}</>".format(link) for link in links),
+                    self._format_solution_text(
+                        io, title.rstrip("."), "<fg=default;options=bold>{}</>"
+                    ),
+                    self._format_solution_text(io, description, "{}"),
+                    ",".join(
+                        "\n  " + self._format_solution_text(io, link, "<fg=blue>{}</>")
+                        for link in links
+                    ),
                 ),
                 True,
             )
+
+    def _format_solution_text(self, io, text, fmt):  # type: (IO, str, str) -> str
+        # A solution may use style tags of its own. A text that is not valid
+        # markup (or would escape the closing tag) is shown as it is: trying it
+        # on a copy keeps the formatter of the output out of a failed attempt
+        try:
+            copy.deepcopy(io.output.formatter).format(fmt.format(text))
+        except Exception:
+            return text.replace("<", "\\<")
+
+        if text.endswith("\\"):
+            return self._format_message(text, fmt)
+
+        return fmt.format(text)
 
     def _render_trace(self, io, frames):
         from crashtest.frame_collection import FrameCollection
